@@ -77,7 +77,11 @@ ASSUMPTIONS = [
 KINDS = ("raise", "kill")
 TDMS_SMALL = ["fmt-tdms_shapein-2.0.1-no-image_2017",
               "fmt-tdms_2fl-no-image_2017"]
-TDMS_MORE = ["fmt-tdms_minimal_2016"]
+# the other tdms fixtures carry no software version of their own: their
+# conversion is branded by the untagged dclab build of this sandbox only and
+# cannot be re-opened here (OldFormatNotSupportedError), so completeness could
+# not be judged
+TDMS_MORE = []
 TASK_CTOR = {"compress": "Compress", "condense": "Condense",
              "repack": "Repack", "join": "Join", "split": "Split",
              "tdms2rtdc": "Tdms2rtdc"}
@@ -152,9 +156,6 @@ def gen_cases(rng, thorough):
                       stale_out=[rng.random() < 0.5 for _ in range(2)],
                       stale_tmp=[rng.random() < 0.5 for _ in range(2)]))
     if thorough:
-        cases.append(dict(task="tdms2rtdc", fixtures=list(TDMS_MORE),
-                          params=dict(dir_mode=False, compute_features=False),
-                          stale_out=[False], stale_tmp=[True]))
         cases.append(dict(task="condense", fixtures=[TDMS_SMALL[0]],
                           params=dict(store_ancillary_features=False),
                           stale_out=[True], stale_tmp=[False]))
@@ -330,7 +331,7 @@ def record_job(idx):
         for i, o in enumerate(lay["outs"]):
             try:
                 viol[i] = check_violations(os.path.join(w, o))
-            except Exception as e:
+            except BaseException as e:  # noqa (dclab: BaseException subclasses)
                 viol[i] = ["check_dataset failed: %r" % (e,)]
     return dict(idx=idx, ref=d, trace=trace, kinds=kinds, details=details,
                 err=err, others=others, viol=viol, secs=time.time() - t0,
@@ -397,7 +398,9 @@ def complete_diff(path, refpath, ref_viol):
         if viol != sorted(ref_viol):
             return "check_dataset violations %s (fault-free result: %s)" % (
                 viol, sorted(ref_viol))
-    except Exception as e:
+    except BaseException as e:  # noqa (dclab: BaseException subclasses)
+        if isinstance(e, (KeyboardInterrupt, SystemExit)):
+            raise
         return "not loadable: %r" % (e,)
     return None
 
@@ -506,8 +509,11 @@ def prepare(run, cases):
         INFO.append(dict(root=root, lay=lay))
     ctx = multiprocessing.get_context("fork")
     _POOL = ctx.Pool(common.NCPU)
-    recs = _POOL.map(record_job, range(len(cases)), chunksize=1)
+    recs = pmap("record_job", range(len(cases)))
     for r in recs:
+        if "crash" in r:
+            raise RuntimeError("recording the fault-free run failed: %s" %
+                               r["crash"])
         INFO[r["idx"]].update(ref=r["ref"], trace=r["trace"],
                               kinds=r["kinds"], err=r["err"],
                               viol=r["viol"], details=r["details"],
@@ -518,6 +524,26 @@ def prepare(run, cases):
     _POOL.join()
     _POOL = ctx.Pool(common.NCPU)
     return recs
+
+
+def _job(args):
+    """Pool entry point: a job must never take its worker down (dclab has
+    exception classes derived from BaseException, e.g.
+    OldFormatNotSupportedError; a dead worker would hang Pool.map)."""
+    name, arg = args
+    try:
+        return globals()[name](arg)
+    except BaseException as e:  # noqa
+        if isinstance(e, (KeyboardInterrupt, SystemExit)):
+            raise
+        import traceback
+        return dict(crash="%s(%r): %s" % (name, arg,
+                                          traceback.format_exc()[-1200:]),
+                    job=arg, idx=arg if isinstance(arg, int) else arg[0])
+
+
+def pmap(name, args, chunksize=1):
+    return _POOL.map(_job, [(name, a) for a in args], chunksize=chunksize)
 
 
 def restart_pool():
@@ -788,10 +814,28 @@ def _run(run):
                                  "840" if run.thorough else "35"))
     t_start = time.time()
     results = []
-    for res in _POOL.imap(fault_job, jobs, chunksize=2):
-        results.append(res)
-        if time.time() - t_start > limit:
+    import multiprocessing
+    it = _POOL.imap_unordered(_job, [("fault_job", j) for j in jobs],
+                              chunksize=1)
+    while len(results) < len(jobs):
+        left = limit - (time.time() - t_start)
+        if left <= 0:
             break
+        try:
+            res = it.next(timeout=left)
+        except multiprocessing.TimeoutError:
+            break
+        except StopIteration:
+            break
+        if "crash" in res:
+            run.broken.append(("harness(C10)", "fault run crashed: %s" %
+                               res["crash"]))
+            jobs = [j for j in jobs if j != tuple(res["job"])]
+        else:
+            results.append(res)
+    # deterministic order of evaluation / reporting
+    order = {j: n for n, j in enumerate(jobs)}
+    results.sort(key=lambda r: order.get(tuple(r["job"]), 0))
     if len(results) < len(jobs):
         run.notes.append("fault enumeration stopped after %.0f s: %d of %d "
                          "sampled fault runs done (machine load)" % (
@@ -929,7 +973,11 @@ def natural_failures(run):
             jobs.append((idx, "truncated-input"))
         if case["task"] == "split":
             jobs.append((idx, "stale-temp"))
-    for res in _POOL.map(natural_job, jobs, chunksize=1):
+    for res in pmap("natural_job", jobs):
+        if "crash" in res:
+            run.broken.append(("harness(C10)", "natural-failure run crashed: "
+                               "%s" % res["crash"]))
+            continue
         idx, what = res["job"]
         cd = dict(CASES[idx], scenario=what)
         run.record_case(cd, res["failed"], sample=False)
@@ -979,7 +1027,7 @@ def natural_job(job):
                     _ = ds[feat][0] if feat != "trace" else None
             if failed and not (case["task"] in ("split", "tdms2rtdc")):
                 fails.append("task failed but created output %s" % o)
-        except Exception as e:
+        except BaseException as e:  # noqa
             fails.append("output %s is not loadable: %r" % (o, e))
     for p in lay["all_inputs"]:
         q = os.path.join(w, p)
@@ -1104,7 +1152,9 @@ def strace_crosscheck(run):
     idxs = list(range(len(CASES)))
     if not run.thorough:
         idxs = run.rng.sample(idxs, min(2, len(idxs)))
-    for res in _POOL.map(strace_job, idxs, chunksize=1):
+    for res in pmap("strace_job", idxs):
+        if "crash" in res:
+            res = dict(idx=res["idx"], skipped=res["crash"][-300:])
         if "skipped" in res:
             run.notes.append("strace cross-check of case %d skipped: %s" % (
                 res["idx"], res["skipped"]))
@@ -1247,7 +1297,10 @@ def search(run, broken):
         r = R()
         t_end = time.time() + float(os.environ.get(
             "VERIF_C10_SEARCH_SECS", "900" if run.thorough else "150"))
-        for res in _POOL.imap_unordered(fault_job, jobs, chunksize=4):
+        for res in _POOL.imap_unordered(
+                _job, [("fault_job", j) for j in jobs], chunksize=4):
+            if "crash" in res:
+                continue
             judge(r, res["job"][0], res)
             if r.found:
                 return r.found
